@@ -56,15 +56,18 @@ Print Assumptions op_levels_match_grammar.
    the tokens of what printExpr prints (parentheses chosen by level, the "**" and "??" operand
    rules, the isNewTarget rule: a call inside the callee of "new" is parenthesised, at any depth of
    member access, and a new-expression keeps its "()" when it is itself a member/call target)
+   under either value of the forbidIn flag fi of a for-loop head (an "in" operator is parenthesised wherever the grammar
+   parameter [~In] reaches: operands of unparenthesised binary operators, test and last branch of an
+   unparenthesised conditional; the parser runs with the matching parameter)
    are parsed by the independent ECMA-262 precedence-climbing parser back to the tree,
    up to norm (left-nesting of comma chains, which the printer prints without parentheses) *)
-Theorem print_parse_tokens : forall mw e, wf e ->
-  exists n, forall m, (n <= m)%nat -> parse_fuel m (toks (print_items mw LLowest e)) = Some (norm e).
+Theorem print_parse_tokens : forall mw fi e, wf e ->
+  exists n, forall m, (n <= m)%nat -> parse_fuel m fi (toks (print_items mw fi LLowest e)) = Some (norm e).
 Proof. exact parse_print_items_all. Qed.
 Print Assumptions print_parse_tokens.
 
 (* norm is invisible to the printer (so it only re-associates what is printed identically) and idempotent *)
-Theorem norm_prints_the_same : forall mw e P, print_items mw P (norm e) = print_items mw P e.
+Theorem norm_prints_the_same : forall mw e fi P, print_items mw fi P (norm e) = print_items mw fi P e.
 Proof. exact print_norm. Qed.
 Print Assumptions norm_prints_the_same.
 Theorem norm_idempotent : forall e, norm (norm e) = norm e.
@@ -73,13 +76,13 @@ Print Assumptions norm_idempotent.
 
 (* every printed well-formed tree is a grammatical chain of well-formed items, so render_lex applies:
    the text of a printed tree lexes to the tokens of its items, in both whitespace modes *)
-Theorem print_lex : forall mw e, wf e -> lexok e ->
-  lex (print_expr mw e) = Some (toks (print_items mw LLowest e)).
+Theorem print_lex : forall mw fi e, wf e -> lexok e ->
+  lex (print_expr mw fi e) = Some (toks (print_items mw fi LLowest e)).
 Proof. exact print_lex_all. Qed.
 Print Assumptions print_lex.
 
 (* if some fuel parses a token list, the concrete fuel of [parse] (2 * tokens + 2) does too *)
-Theorem parse_fuel_sufficient : forall n ts e, parse_fuel n ts = Some e -> parse ts = Some e.
+Theorem parse_fuel_sufficient : forall n ni ts e, parse_fuel n ni ts = Some e -> parse ni ts = Some e.
 Proof. exact parse_fuel_enough. Qed.
 Print Assumptions parse_fuel_sufficient.
 
@@ -87,12 +90,12 @@ Print Assumptions parse_fuel_sufficient.
    in either whitespace mode, is read back (ECMA-262 lexer, then ECMA-262 expression parser) as the
    same tree up to norm.  [lexok] is the one lexical side condition of render_lex: the operand of a
    prefix ++/-- does not start with a number or a regular expression. *)
-Theorem print_parse_roundtrip : forall mw e, wf e -> lexok e -> parse_text (print_expr mw e) = Some (norm e).
+Theorem print_parse_roundtrip : forall mw fi e, wf e -> lexok e -> parse_text fi (print_expr mw fi e) = Some (norm e).
 Proof. exact print_parse_roundtrip_concrete. Qed.
 Print Assumptions print_parse_roundtrip.
 
 (* print_fixed_point: printing what was read back reproduces the text exactly, in both modes *)
-Theorem print_fixed_point : forall mw e e', wf e -> lexok e ->
-  parse_text (print_expr mw e) = Some e' -> forall mw', print_expr mw' e' = print_expr mw' e.
+Theorem print_fixed_point : forall mw fi e e', wf e -> lexok e ->
+  parse_text fi (print_expr mw fi e) = Some e' -> forall mw' fi', print_expr mw' fi' e' = print_expr mw' fi' e.
 Proof. exact print_fixed_point_concrete. Qed.
 Print Assumptions print_fixed_point.
